@@ -80,6 +80,15 @@ class TracesParser:
                 vnodeid = 0
                 lookup_events = []
 
+    @staticmethod
+    def events_without(events, excluded):
+        """
+        Events that are none of the excluded ones.
+        Two different records can be equal field by field, so they are told apart by identity and not by value.
+        """
+        excluded_ids = {id(event) for event in excluded}
+        return [event for event in events if id(event) not in excluded_ids]
+
     def parse_vnode(self, events):
         try:
             return self.parse_vnodes(events)[0]
